@@ -16,6 +16,9 @@ use std::str::Chars;
 //@@ TYPE src/parse/lex/result.rs | type | LexResult
 pub struct LexErr { _x: u8 }
 
+// ---- /repo functions with ASSUMED contracts in this unit (bodies pinned: contracts/assume_pins.json) ----------------------------
+//@@ ASSUME src/parse/lex/tokenize.rs | free | as_op_or_id
+//@@ ASSUME src/parse/lex/token.rs | impl fmt::Display for Token | fmt
 verus! {
 
 #[verifier::external_type_specification] pub struct ExPosition(Position);
